@@ -94,6 +94,11 @@ pub struct HistCfg {
     pub late_pool: Option<(Pool, u32)>,
     /// also hand the wallet transparent coins (put_received_transparent_utxo)
     pub coins: bool,
+    /// probability that a mined block carries no transaction at all (commitment-free blocks)
+    pub sparse: f64,
+    /// in the late-pool shape, scan the initial chain in ONE batch (no intermediate frontier is
+    /// inserted, so the rewind that follows cannot meet known finding F1)
+    pub late_one_batch: bool,
 }
 
 impl HistCfg {
@@ -145,7 +150,45 @@ impl HistCfg {
             nu6_3_late: 0,
             late_pool: None,
             coins: false,
+            sparse: 0.0,
+            late_one_batch: false,
         }
+    }
+
+    /// A short directed history (a few seconds): either NU6.3 activating inside the scanned chain
+    /// with a dense retention grid over mostly empty blocks (`kind` even), or a pool whose first
+    /// commitment arrives late, scanned in one batch, rewound to its empty tree and continued on a
+    /// different chain (`kind` odd).
+    pub fn micro(rng: &mut ChaCha20Rng, kind: u64) -> Self {
+        let mut c = HistCfg::random(rng, false);
+        c.base_offset = rng.gen_range(0..50);
+        c.max_batch = 150;
+        c.steps = rng.gen_range(4..10);
+        c.shard_start = false;
+        c.dense_outputs = 0;
+        if kind % 2 == 0 {
+            c.nu6_3 = true;
+            c.nu6_3_late = rng.gen_range(2..25);
+            c.retention = Some(rng.gen_range(2..7));
+            c.initial_len = c.nu6_3_late + rng.gen_range(10..40);
+            c.sparse = 0.6;
+            c.max_rewinds = rng.gen_range(0..=1);
+            c.out_of_order = rng.gen_bool(0.5);
+        } else {
+            if c.pools.len() < 2 {
+                c.pools = POOLS.to_vec();
+            }
+            c.nu6_3 = c.nu6_3 || c.pools.contains(&Pool::Ironwood);
+            let lp = *c.pools.last().unwrap();
+            let k = rng.gen_range(4..13);
+            c.late_pool = Some((lp, k));
+            c.initial_len = k + rng.gen_range(8..30);
+            c.late_one_batch = true;
+            c.max_rewinds = 2;
+            c.avoid_f1 = true;
+            c.sparse = 0.1;
+        }
+        c
     }
 
     pub fn base_height(&self) -> u32 {
@@ -187,6 +230,7 @@ impl HistCfg {
             "out_of_order": self.out_of_order, "max_rewinds": self.max_rewinds, "steps": self.steps,
             "spend_bias": self.spend_bias, "avoid_f1": self.avoid_f1, "shard_start": self.shard_start, "dense_outputs": self.dense_outputs, "nu6_3_late": self.nu6_3_late,
             "late_pool": self.late_pool.map(|(p, k)| format!("{}@+{k}", p.name())),
+            "sparse": self.sparse, "late_one_batch": self.late_one_batch,
         })
     }
 }
@@ -243,6 +287,10 @@ pub struct Hist {
     pub deep_rewinds_attempted: u64,
     /// transparent coins handed to the wallet
     pub coins: Vec<Coin>,
+    /// successful scan batches with NU6.3 activating strictly inside them while a retention policy is set
+    pub batches_straddling_activation: u64,
+    /// accepted rewinds that emptied the tree of a pool which had leaves in scanned blocks above
+    pub rewinds_to_empty_tree: u64,
 }
 
 #[derive(Clone, Debug)]
@@ -327,6 +375,8 @@ impl Hist {
             subtree_roots_put: 0,
             deep_rewinds_attempted: 0,
             coins: vec![],
+            batches_straddling_activation: 0,
+            rewinds_to_empty_tree: 0,
         }
     }
 
@@ -360,7 +410,9 @@ impl Hist {
                 }
             }
             let height = self.sim.tip_height() + 1;
+            let empty = self.cfg.sparse > 0.0 && self.rng.gen_bool(self.cfg.sparse);
             let n_tx = match self.rng.gen_range(0..10) {
+                _ if empty => 0,
                 0..=1 => 0,
                 2..=5 => 1,
                 6..=7 => 2,
@@ -426,6 +478,9 @@ impl Hist {
                 if extends_frontier {
                     self.floor_batches += 1;
                 }
+                if self.cfg.retention.is_some() && self.cfg.nu6_3_late > 0 && self.cfg.nu6_3_activation().map_or(false, |a| from < a && a < end) {
+                    self.batches_straddling_activation += 1;
+                }
                 let sizes = self.sim.sizes_at(from - 1);
                 for p in POOLS {
                     self.f1.on_frontier(p, sizes[p.idx()]);
@@ -459,6 +514,7 @@ impl Hist {
     /// actually fork there (a refusal -- e.g. no checkpoint at or below that height -- is a legal
     /// outcome and simply means this reorg does not happen in this history).
     fn rewind(&mut self, to: u32) -> bool {
+        let before = self.sim.sizes_at(self.w.scanned.keys().next_back().copied().unwrap_or(to));
         match self.w.truncate_to_height(to) {
             Ok(actual) => {
                 // remember the orphaned transactions for possible re-mining
@@ -475,6 +531,9 @@ impl Hist {
                     }
                 }
                 let sizes = self.sim.sizes_at(actual);
+                if POOLS.iter().any(|p| sizes[p.idx()] == 0 && before[p.idx()] > 0) {
+                    self.rewinds_to_empty_tree += 1;
+                }
                 let mut f1 = false;
                 for p in POOLS {
                     f1 |= self.f1.on_truncate(p, sizes[p.idx()]);
@@ -595,11 +654,11 @@ impl Hist {
             let first = self.sim.blocks.values().find(|b| !b.leaves[lp.idx()].is_empty()).map(|b| b.height);
             let tip = self.sim.tip_height();
             if let Some(f) = first {
-                if f > self.sim.base_height() + 2 && tip > f && tip - f < 90 && self.rng.gen_bool(0.75) {
+                if f > self.sim.base_height() + 2 && tip > f && tip - f < 90 && (self.cfg.late_one_batch || self.rng.gen_bool(0.75)) {
                     let mut from = self.sim.base_height() + 1;
                     let mut ok = true;
                     while from <= tip && ok {
-                        let l = self.rng.gen_range(1..=self.cfg.max_batch.min(40)).min(tip + 1 - from);
+                        let l = if self.cfg.late_one_batch { tip + 1 - from } else { self.rng.gen_range(1..=self.cfg.max_batch.min(40)).min(tip + 1 - from) };
                         ok = self.scan(from, l);
                         if ok {
                             self.call(mons, r);
